@@ -229,8 +229,6 @@ func c06Run(t *testing.T, ci any, trace bool) *verifsim.Result {
 	// run sees no buffers of earlier runs and a replay behaves like the worker.
 	runtime.VerifPools(true)
 	defer runtime.VerifPools(false)
-	runtime.GC()
-	runtime.GC()
 	return verifsim.Run(t, c.Cfg, trace, func(s *verifsim.Sim) {
 		input := c06Input(c)
 		if c.Prelude != "" {
